@@ -138,12 +138,40 @@ func safeRel(in genInst, id string) (res genRes) {
 
 // ---- single store fault ----------------------------------------------------------------------
 
-// faultArm makes exactly one operation (op on key) of a store double fail with an error.
+// faultArm makes exactly one operation (op on key) of a store double fail with an error, and - for
+// the lease histories of the allocator - the next Set on each key of a set of keys (armSet).
 type faultArm struct {
 	mu      sync.Mutex
 	op, key string
 	armed   bool
 	hits    int
+	// transient heartbeat faults: keys whose next Set fails; never more than maxConsec failed Sets in a
+	// row on one key (the environment assumption of the model, enforced here on the REAL sequence of
+	// attempts, whatever the driver's idea of the schedule is); suppressed counts faults not delivered for that reason
+	sets       map[string]bool
+	consec     map[string]int
+	maxConsec  int
+	setHits    int
+	suppressed int
+}
+
+// armSet: the next Set on key fails.
+func (f *faultArm) armSet(key string) {
+	f.mu.Lock()
+	if f.sets == nil {
+		f.sets, f.consec = map[string]bool{}, map[string]int{}
+	}
+	f.sets[key] = true
+	f.mu.Unlock()
+}
+
+// disarmSet withdraws an undelivered Set fault; it reports whether there was one.
+func (f *faultArm) disarmSet(key string) bool {
+	f.mu.Lock()
+	defer f.mu.Unlock()
+	was := f.sets[key]
+	delete(f.sets, key)
+	return was
 }
 
 func (f *faultArm) arm(op, key string) {
@@ -155,6 +183,20 @@ func (f *faultArm) arm(op, key string) {
 func (f *faultArm) fn(c *doubles.Call) error {
 	f.mu.Lock()
 	defer f.mu.Unlock()
+	if c.Op == "Set" && f.consec != nil {
+		if f.sets[c.Key] {
+			delete(f.sets, c.Key)
+			if f.maxConsec > 0 && f.consec[c.Key] >= f.maxConsec {
+				f.suppressed++
+				f.consec[c.Key] = 0
+				return nil
+			}
+			f.consec[c.Key]++
+			f.setHits++
+			return doubles.ErrInjected
+		}
+		f.consec[c.Key] = 0
+	}
 	if f.armed && c.Op == f.op && c.Key == f.key {
 		f.armed = false
 		f.hits++
